@@ -70,6 +70,8 @@ pub struct Tx<'a> {
     /// OWN rules (teardown code): `self` of a TreeBin/Table method is the arena object `this`
     pub self_ptr: bool,
     pub ctx: Vec<String>,
+    pub lock_vars: Vec<String>,
+    pub value_vars: Vec<String>,
 }
 
 fn path_str(p: &syn::Path) -> String {
@@ -141,7 +143,7 @@ impl<'a> Tx<'a> {
             syn::Expr::MethodCall(m) => {
                 // unsafe { x.deref() }.as_tree_node().unwrap()  /  .as_node().unwrap()
                 let n = m.method.to_string();
-                if n == "unwrap" || n == "as_tree_node" || n == "as_node" {
+                if n == "unwrap" || n == "expect" || n == "as_tree_node" || n == "as_node" {
                     return self.node_ptr(&m.receiver);
                 }
                 if n == "deref" && m.args.is_empty() {
@@ -349,6 +351,9 @@ impl<'a> Tx<'a> {
                     match &l.init {
                         Some(init) => {
                             let v = self.expr(&init.expr);
+                            if self.self_ptr && v.starts_with("h.value(") {
+                                self.value_vars.push(pat.clone());
+                            }
                             parts.push(format!("let {} = {};", pat, v));
                         }
                         None => parts.push(format!("let {};", pat)),
@@ -379,8 +384,11 @@ impl<'a> Tx<'a> {
         };
         match p.as_str() {
             "drop" if self.self_ptr => {
-                // R26: dropping an owned TreeBin runs its Drop impl
+                // R26: dropping an owned TreeBin runs its Drop impl; dropping a lock guard has no arena counterpart
                 let a = self.expr(&c.args[0]);
+                if self.lock_vars.contains(&a) {
+                    return "()".into();
+                }
                 return format!("treebin_drop(h, {})", a);
             }
             "Guard::unprotected" => return "()".into(),
@@ -459,6 +467,40 @@ impl<'a> Tx<'a> {
                 self.err(&format!("store to `{}`", toks(&*m.receiver)), m.span());
                 String::new()
             }
+            "expect" | "unwrap" | "as_node" | "as_tree_node" if self.self_ptr => {
+                let e = syn::Expr::MethodCall(m.clone());
+                match self.node_ptr(&e) {
+                    Some(p) => p,
+                    None => {
+                        self.err(&format!("method `.{}()`", name), m.span());
+                        String::new()
+                    }
+                }
+            }
+            "check_guard" if self.self_ptr => "()".into(),
+            "lock" if self.self_ptr => "()".into(),
+            "len" if self.self_ptr && m.args.is_empty() => {
+                let r = self.expr(&m.receiver);
+                format!("h.tab_len({})", r)
+            }
+            "bin" if self.self_ptr => {
+                let r = self.expr(&m.receiver);
+                let i = self.expr(&m.args[0]);
+                format!("h.bin({}, {})", r, i)
+            }
+            "store_bin" if self.self_ptr => {
+                let r = self.expr(&m.receiver);
+                let i = self.expr(&m.args[0]);
+                let v = self.expr(&m.args[1]);
+                format!("h.store_bin({}, {}, {})", r, i, v)
+            }
+            "help_transfer" | "add_count" if self.self_ptr => {
+                // method of the map itself: f(h, this, args..) (guard arguments dropped)
+                let args: Vec<String> = m.args.iter().filter(|a| !is_drop_arg(a)).map(|a| self.expr(a)).collect();
+                let mut all = vec!["h".to_string(), "this".to_string()];
+                all.extend(args);
+                format!("{}({})", name, all.join(", "))
+            }
             "swap" if self.self_ptr => {
                 // R25: <obj>.F.swap(v, ORD, guard) -> h.swap_F(<obj>, v)
                 let v = m.args.first().map(|a| self.expr(a)).unwrap_or_default();
@@ -512,7 +554,11 @@ impl<'a> Tx<'a> {
                         }
                     }
                 }
-                format!("h.retire({})", self.expr(a))
+                let t = self.expr(a);
+                if self.value_vars.contains(&t) {
+                    return format!("h.retire_value_id({})", t);
+                }
+                format!("h.retire({})", t)
             }
             "lock_root" | "unlock_root" => "()".into(),
             _ => {
@@ -562,6 +608,12 @@ impl<'a> Tx<'a> {
                 if let Some(init) = &l.init {
                     let v = self.expr(&init.expr);
                     self.push(ind, format!("{};", v), ln, true);
+                }
+            }
+            syn::Stmt::Local(l) if self.self_ptr && l.init.as_ref().map(|i| toks(&*i.expr).ends_with(".lock.lock()")).unwrap_or(false) => {
+                // the bin lock has no arena counterpart (sequential semantics)
+                if let syn::Pat::Ident(i) = &l.pat {
+                    self.lock_vars.push(i.ident.to_string());
                 }
             }
             syn::Stmt::Local(l) if self.self_ptr && l.init.as_ref().map(|i| toks(&*i.expr).contains("Guard::unprotected")).unwrap_or(false) => {
@@ -617,6 +669,9 @@ impl<'a> Tx<'a> {
                             return;
                         }
                         let v = self.expr(&init.expr);
+                        if self.self_ptr && v.starts_with("h.value(") {
+                            self.value_vars.push(name.clone());
+                        }
                         self.push(ind, format!("let {}{} = {};", m, name, v), ln, true);
                     }
                 }
@@ -716,11 +771,23 @@ impl<'a> Tx<'a> {
                 self.push(ind, format!("match {} {{", scrut), ln, false);
                 for a in &m.arms {
                     let mut pat = toks(&a.pat);
+                    let mut bound: Option<String> = None;
                     if on_entry {
-                        pat = pat.replace("BinEntry::", "Kind::").replace("(_)", "").replace("Kind::Tree", "Kind::TreeBin").replace("Kind::TreeBinNode", "Kind::TreeNode");
+                        if let syn::Pat::TupleStruct(ts) = &a.pat {
+                            if let Some(syn::Pat::Ident(pi)) = ts.elems.first() {
+                                bound = Some(pi.ident.to_string());
+                            }
+                        }
+                        let head = pat.split('(').next().unwrap_or("").trim().to_string();
+                        pat = head.replace("BinEntry::", "Kind::").replace("Kind::TreeNode", "Kind::@TN").replace("Kind::Tree", "Kind::TreeBin").replace("Kind::@TN", "Kind::TreeNode");
                     }
                     self.push(ind + 1, format!("{} => {{", pat), a.span().start().line, false);
                     self.ctx.push(pat.replace(' ', ""));
+                    if let Some(b) = &bound {
+                        // `BinEntry::K(ref x)`: x is the object behind the matched pointer
+                        let sc = self.expr(&m.expr);
+                        self.push(ind + 2, format!("let {}: Ptr = {};", b, sc), a.span().start().line, true);
+                    }
                     match &*a.body {
                         syn::Expr::Block(b) => self.block(&b.block, ind + 2),
                         other => self.stmt_expr(other, true, ind + 2, a.span().start().line),
@@ -737,7 +804,13 @@ impl<'a> Tx<'a> {
             }
             syn::Expr::Unsafe(u) => {
                 // unsafe { stmts } at statement level: contents inline (allow(unused_unsafe) blocks)
-                self.block(&u.block, ind);
+                let n = u.block.stmts.len();
+                for (k, st) in u.block.stmts.iter().enumerate() {
+                    match st {
+                        syn::Stmt::Expr(e2, None) if k + 1 == n && semi => self.stmt_expr(e2, true, ind, ln),
+                        other => self.stmt(other, ind),
+                    }
+                }
             }
             syn::Expr::Assign(a) => {
                 if let syn::Expr::Loop(lp) = &*a.right {
@@ -779,6 +852,12 @@ impl<'a> Tx<'a> {
                     "unreachable" => self.push(ind, "assert(false); loop invariant false decreases 0int { }".into(), ln, true),
                     _ => self.err(&format!("macro {}!", n), m.span()),
                 }
+            }
+            syn::Expr::Binary(b) if matches!(b.op, syn::BinOp::AddAssign(_) | syn::BinOp::SubAssign(_)) => {
+                let l = self.expr(&b.left);
+                let r = self.expr(&b.right);
+                let op = if matches!(b.op, syn::BinOp::AddAssign(_)) { "+" } else { "-" };
+                self.push(ind, format!("{} = {} {} {};", l, l, op, r), ln, true);
             }
             other => {
                 let t = self.expr(other);
@@ -893,7 +972,7 @@ pub fn generate(idx: &SrcIndex, template: &str) -> ArenaOut {
                     errors.push(format!("lost anchor: function {} not found", key));
                 }
                 Some(f) => {
-                    let mut tx = Tx { f, lines: vec![], errors: vec![], aliases: vec![], loop_count: 0, ret_count: 0, self_is_bin: f.owner == "TreeBin" && !own, pre: vec![], tmp_count: 0, verbatim, self_ptr: own, ctx: vec![] };
+                    let mut tx = Tx { f, lines: vec![], errors: vec![], aliases: vec![], loop_count: 0, ret_count: 0, self_is_bin: f.owner == "TreeBin" && !own, pre: vec![], tmp_count: 0, verbatim, self_ptr: own, ctx: vec![], lock_vars: vec![], value_vars: vec![] };
                     tx.block(&f.block, 1);
                     errors.extend(tx.errors.iter().cloned());
                     // resolve anchors
